@@ -225,7 +225,7 @@ func init() {
 			{"check-all-loop", "a loop that rejects on a property of each element with an error return is not left early with a break (the elements after it would escape the check)", func(c *Ctx) {
 				ruleCheckAllLoop(c, "pkg/smartcontract/manifest", "pkg/core/interop/contract", "pkg/core/interop")
 			}},
-			{"flags-effects", "for every system call and native-method registration the effects of the handler over the module-restricted call graph (contract-storage write, notification, script load) are covered by the declared required flags (legacy superseded registrations and the payment callback tabled)", ruleFlagsEffects},
+			{"flags-effects", "for every system call and native-method registration the effects of the handler over the module-restricted call graph (contract-storage write, notification, script load) are covered by the declared required flags (legacy superseded registrations tabled); the payment callback natives issue is charged to the registrations from which a feasible path - boolean arguments and hardfork window taken into account - leads to a mint with the callback switched on", ruleFlagsEffects},
 			{"native-flag-check", "native.Call and Context.SyscallHandler invoke the handler only behind the Has(RequiredFlags) test; the historical relaxation is confined to pre-Aspidochelone Management deploy/update", ruleFlagChecks},
 			{"scopeless-loader", "a frame loaded by a function that opens no rollback scope for it (System.Runtime.LoadScript) gets flags whose upper bound - constants from the type checker, & intersects, &^ clears - contains neither WriteStates nor AllowNotify: flags only shrink, and a dynamic script is read-only", ruleScopelessLoader},
 			{"call-guards", "safe methods are called with write/notify stripped, a deployed caller passes CanCall before a non-safe call, flags given to the loaders are the intersection with the current context's flags, and no other loader site exists in the execution closure", ruleCallGuards},
